@@ -223,6 +223,14 @@ V("c10-surface-area-two-axes-sorted", "fault", "C10", P + "ellipsoid.py",
 V("c10-volume-degree", "fault", ["C10", "C09"], P + "ellipsoid.py", "return (4 / 3) * np.pi * self.a * self.b * self.c", "return (4 / 3) * np.pi * self.a * self.b", rule=None)
 V("c10-rw-reassociate", "rewrite", "C10", P + "ellipsoid.py", "return (4 / 3) * np.pi * self.a * self.b * self.c", "return self.a * self.b * self.c * np.pi * 4 / 3")
 
+V("c10-sphere-shortcut-two-axes", "fault", "C10", P + "ellipsoid.py",
+  "        vol = self.volume\n        i_xx = vol / 5 * (self.b**2 + self.c**2)",
+  "        if self.a == self.c:\n            return Sphere(self.a, self.centroid).inertia_tensor\n        vol = self.volume\n        i_xx = vol / 5 * (self.b**2 + self.c**2)", rule="BR-2")
+V("c10-rw-sphere-shortcut-all-axes", "rewrite", "C10", P + "ellipsoid.py",
+  "        vol = self.volume\n        i_xx = vol / 5 * (self.b**2 + self.c**2)",
+  "        if self.a == self.b == self.c:\n            return Sphere(self.a, self.centroid).inertia_tensor\n        vol = self.volume\n        i_xx = vol / 5 * (self.b**2 + self.c**2)")
+V("c10-circle-shortcut-ignores-b", "fault", "C10", P + "ellipse.py",
+  "        return np.pi * self.a * self.b", "        if self.a == 1:\n            return np.pi * self.a\n        return np.pi * self.a * self.b", rule=None, allow_error=True)
 # ------------------------------------------------------------------------------------------ C11
 V("c11-sphere-term-constant", "fault", "C11", P + "convex_spheropolyhedron.py", "v_sphere = (4 / 3) * np.pi * self.radius**3", "v_sphere = 4 * np.pi * self.radius**3", rule="ST-1")
 V("c11-wedge-fraction", "fault", "C11", P + "convex_spheropolyhedron.py",
